@@ -143,11 +143,25 @@ func TestVerifReplayLeafVariants(t *testing.T) {
 			}
 			fn = "(*tree.LeafVariants).remainsToExist"
 			rep.cases[fn]++
-			ex := false
+			// what the device runs does not outlive the intents that put it there: when intents hold the leaf and every one
+			// of their values is being removed from the device, only the schema default is left
+			intentOwned, intentStays, runningStays, defaultStays := false, false, false, false
 			for _, o := range lv.les {
-				if !o.Delete {
-					ex = true
+				switch {
+				case o.Owner() == RunningIntentName:
+					runningStays = runningStays || !o.Delete
+				case o.Owner() == DefaultsIntentName:
+					defaultStays = defaultStays || !o.Delete
+				default:
+					intentOwned = true
+					if !o.Delete || o.DeleteOnlyIntended {
+						intentStays = true
+					}
 				}
+			}
+			ex := intentStays || runningStays || defaultStays
+			if intentOwned && !intentStays {
+				ex = defaultStays
 			}
 			if lv.remainsToExist() != ex {
 				rep.fail(fn, "spec", in, fmt.Sprint(lv.remainsToExist()))
@@ -156,7 +170,17 @@ func TestVerifReplayLeafVariants(t *testing.T) {
 			rep.cases[fn]++
 			want := true
 			if len(lv.les) > 0 {
-				if len(lv.les) == 1 && lv.les[0].Owner() == RunningIntentName {
+				// a value only the device holds (besides the schema default) is left alone
+				hasRunning, onlyRunningOrDefault := false, true
+				for _, o := range lv.les {
+					if o.Owner() == RunningIntentName {
+						hasRunning = true
+					}
+					if vrIntentOwned(o) {
+						onlyRunningOrDefault = false
+					}
+				}
+				if hasRunning && onlyRunningOrDefault {
 					want = false
 				}
 				for _, o := range lv.les {
